@@ -273,6 +273,9 @@ impl WorkerPool {
         result_sender: &std::sync::mpsc::Sender<TcpAnalysisResult>,
         filter: Option<&FilterConfig>,
     ) -> bool {
+        #[cfg(huginn_net_verif)]
+        crate::verif_hooks::worker_packet(packet);
+
         if let Some(filter_cfg) = filter {
             if !raw_filter::apply(packet, filter_cfg) {
                 tracing::debug!("Filtered out packet before parsing");
@@ -310,6 +313,9 @@ impl WorkerPool {
         if self.shutdown_flag.load(Ordering::Relaxed) {
             return DispatchResult::Dropped;
         }
+
+        #[cfg(huginn_net_verif)]
+        crate::verif_hooks::perturb(0);
 
         // Extract source IP for hashing
         let source_ip_hash = packet_hash::hash_source_ip(&packet);
